@@ -173,7 +173,7 @@ func printSummary(ex *Explorer, d time.Duration, verbose bool) {
 	}
 }
 
-func cmdSelftest(args []string) { fmt.Println("selftest: not built yet"); os.Exit(2) }
+
 
 // cmdReplay re-runs a stored counterexample directory (written next to a VIOLATION line) natively against /repo.
 func cmdReplay(args []string) {
